@@ -9,7 +9,7 @@ use crate::refops::{self, Edit, KP};
 use crate::tree::{hex, Tree};
 use std::collections::BTreeSet;
 
-pub const PREFILL: &[u8] = &[0x40, 0, 0, 2, 0x10, 0, 0, 1, 0xEE, 0x20, 0x80];
+pub const PREFILL: &[u8] = &[0xA5, 0x40, 0, 0, 2, 0x10, 0, 0, 1, 0xEE, 0x20, 0x80];
 
 /// compare an observed editing outcome with the reference
 pub fn judge(ctx: &mut Ctx, what: &str, got: Option<Result<Vec<u8>, String>>, exp: &Edit, pinned_variant: bool, info: &dyn Fn() -> String) -> Option<Vec<u8>> {
